@@ -95,7 +95,9 @@ def run(ctx):
     inputs = bp.corpus(ctx, 8 if q else 40, 1 if q else 8, small=q) + (bp.sparse_corpus(ctx, 40) if not q else [])
     for k, inp in enumerate(inputs):
         for space in bp.SPACES:
-            real_run(ctx, inp.name, inp.ts, inp.mu, inp.Ne, space, 1e-8 if (k % 2 == 0) else 1e-3)
+            # eps from negligible up to the order of the grid spacing (large values added after seed C13-a:
+            # eps as a floor instead of an offset only matters when eps is comparable to the spacing)
+            real_run(ctx, inp.name, inp.ts, inp.mu, inp.Ne, space, (1e-8, 1e-3, 0.02 * inp.Ne, 0.3 * inp.Ne)[k % 4])
     bp.tick(ctx, "real_runs")
 
 
